@@ -89,6 +89,7 @@ func ruleCatalogLocking(c *Ctx) {
 				}
 				return true
 			})
+
 			walkAll(s.Fn.Decl.Body, func(n ast.Node) bool {
 				if cx, ok := n.(*ast.CallExpr); ok && CalleeName(outer.Info, cx) == "(*catalog.Directory).recurse" && len(cx.Args) == 2 {
 					if unparen(cx.Args[1]) == ast.Expr(lit) || (holder != nil && identObj(outer.Info, cx.Args[1]) == holder) {
@@ -97,6 +98,7 @@ func ruleCatalogLocking(c *Ctx) {
 				}
 				return true
 			})
+
 			if passed {
 				ex = append(ex, lockException{s.Name2(), "param#0", "caller-holds: levelFunc literal invoked by recurse under the node's RLock"})
 			}
@@ -133,6 +135,7 @@ func litOf(s *Scope) *ast.FuncLit {
 		}
 		return out == nil
 	})
+
 	return out
 }
 
@@ -290,12 +293,12 @@ func ruleSharedFlags(c *Ctx) {
 					return true
 				}
 				if _, isSel := e.(*ast.SelectorExpr); isSel && v.Kind == "pkgvar" {
-					// do not count the inner ident again
+
 				}
 				if par == nil {
 					par = c.P.Parents(file)
 				}
-				// composite-literal initialisation in a constructor is single-threaded
+
 				if _, isKV := par[e].(*ast.KeyValueExpr); isKV {
 					return false
 				}
@@ -320,6 +323,7 @@ func ruleSharedFlags(c *Ctx) {
 				}
 				return false
 			})
+
 			if plain > 0 {
 				bad++
 				c.Violate(rule, fn.Key, "plain-access:"+v.Key, c.P.Pos(firstPos.Pos()),
@@ -351,12 +355,13 @@ func ruleFixedSlotSingleWrite(c *Ctx) {
 		call := writes[0].(*ast.CallExpr)
 		src := call.Args[0]
 		if o := identObj(s.Info, src); o != nil {
-			walkAll(s.Body, func(n ast.Node) bool {
+			s.walk(func(n ast.Node) bool {
 				if as, ok := n.(*ast.AssignStmt); ok && len(as.Lhs) == 1 && len(as.Rhs) == 1 && identObj(s.Info, as.Lhs[0]) == o {
 					src = as.Rhs[0]
 				}
 				return true
 			})
+
 		}
 		ok := false
 		if cx, isC := unparen(src).(*ast.CallExpr); isC && CalleeName(s.Info, cx) == "(executor/wal.OffsetIndexBuffer).IndexAndPayload" {
@@ -382,7 +387,7 @@ func ruleStreamMapGuarded(c *Ctx) {
 	n := 0
 	for _, s := range c.P.scopesOfPackage("replication") {
 		published := map[types.Object]bool{}
-		walkAll(s.Body, func(m ast.Node) bool {
+		s.walk(func(m ast.Node) bool {
 			if as, ok := m.(*ast.AssignStmt); ok {
 				for i, l := range as.Lhs {
 					if ix, ok := unparen(l).(*ast.IndexExpr); ok && fields[fieldKey(s.Info, ix.X)] && i < len(as.Rhs) {
@@ -394,6 +399,7 @@ func ruleStreamMapGuarded(c *Ctx) {
 			}
 			return true
 		})
+
 		for _, site := range s.sites(func(sub, top ast.Node) bool {
 			cx, ok := sub.(*ast.CallExpr)
 			return ok && CalleeName(s.Info, cx) == "builtin.close" && len(cx.Args) == 1 && published[identObj(s.Info, cx.Args[0])]
@@ -416,7 +422,7 @@ func ruleStreamMapGuarded(c *Ctx) {
 	// R26.3: observation only
 	if s := c.S("R26.3", "(*replication.GRPCReplicationServer).SendReplicationMessage"); s != nil {
 		blocking := 0
-		walkAll(s.Body, func(m ast.Node) bool {
+		s.walk(func(m ast.Node) bool {
 			if _, ok := m.(*ast.SendStmt); ok {
 				blocking++
 			}
@@ -425,6 +431,7 @@ func ruleStreamMapGuarded(c *Ctx) {
 			}
 			return true
 		})
+
 		c.Hold("R26.3", s.Name, "fan-out-send-observation", c.P.Pos(s.Body.Pos()), fmt.Sprintf("observation only (not a verdict): fan-out uses %d plain blocking send(s) into the per-replica buffered channel; whether the master can block depends on runtime rates", blocking))
 	}
 }
